@@ -56,7 +56,7 @@ func init() {
 	reg(&Property{
 		ID:          "C03",
 		Explanation: "Decides necessary conditions only: P1 in tripleToRow every row store is followed on every path by the binding-consistency check whose false edge abandons the triple, and each extraction is built from the matching part of the triple; P2 the three tables naming a clause's bindings agree with the struct; P3 on each of the eight nil-patterns simpleFetch calls the driver method whose parameters are exactly the fixed components; S10 clause-level and row-supplied bounds are treated as mirror images; L3 row values looked up with comma-ok are not dereferenced when absent; S9 kind/instant matching at the driver. Also: P3b the unfeasible flag joins constants only; PO1 predicate/object extraction twins; TB1 the table's two column descriptions move together; S6b planner never writes the shared options; L3b cell pointer fields tested before use; S1/S1x index agreement. Not decided: soundness/completeness of the join. Round 3: P3c a fully specified clause is appended only after the running table was examined (fixed defect 9c8b916); TB2 the cross product has |left|x|right| rows; TB3 projections keep the rows; HK1.",
-		Rules: []func(*Ctx){ruleP3c, ruleTB3, ruleHK1, ruleTB2, ruleS1, ruleS1x, ruleP1, ruleP2, ruleP3, ruleP3b, ruleS6b, rulePO1, ruleTB1, func(c *Ctx) { ruleL3b(c, "bql/planner") }, func(c *Ctx) { ruleS10(c, 3, "bql/planner", "bql/semantic", "storage/memory") },
+		Rules: []func(*Ctx){ruleS6c, ruleP3c, ruleTB3, ruleHK1, ruleTB2, ruleS1, ruleS1x, ruleP1, ruleP2, ruleP3, ruleP3b, ruleS6b, rulePO1, ruleTB1, func(c *Ctx) { ruleL3b(c, "bql/planner") }, func(c *Ctx) { ruleS10(c, 3, "bql/planner", "bql/semantic", "storage/memory") },
 			func(c *Ctx) { ruleL3(c, "bql/...") }, ruleS9},
 		Level:      "row-binding typestate (P1), table agreement (P2), dispatch by nil-pattern with edge facts (P3), bound duality (S10), comma-ok contradiction rule (L3)",
 		Trusted:    []string{"pair table of S10 (lower/upper field names)", trustedCore},
@@ -73,7 +73,7 @@ func init() {
 	reg(&Property{
 		ID:          "C05",
 		Explanation: "Decides that printer and parser of each text format use the same tables (T1): one time layout constant at every Format/Parse of anchors and bounds; %q paired with strconv.Unquote and the anchor delimiter; the literal separator; node delimiters; Triple.String's separators accepted by the compiled split patterns; WriteGraph's terminator vs the reader's split function; literal type names lexer = parser = printer (X5); the reader/writer counting discipline (IO1). Also: T2 conversion table, T2b the text between the quotes reaches the conversion unchanged. Not decided: round-trip equality for all values. Round 3: FS1 formats are constants; S3c no process-wide cache in the value packages; N1/N1b node.Parse builds validated nodes; T3 floats use 64 bits; H3z pooled bytes do not escape; T1 split patterns require the separator.",
-		Rules:       []func(*Ctx){ruleT4, ruleN1b, ruleT3, ruleN1, func(c *Ctx) { ruleH3z(c, "triple/...", "io", "storage/...", "bql/...") }, func(c *Ctx) { ruleFS1(c, "triple/...", "io") }, func(c *Ctx) { ruleS3c(c, "triple/...", "io") }, ruleT2b, ruleT1, ruleT2, ruleIO1},
+		Rules:       []func(*Ctx){ruleN2, ruleT4, ruleN1b, ruleT3, ruleN1, func(c *Ctx) { ruleH3z(c, "triple/...", "io", "storage/...", "bql/...") }, func(c *Ctx) { ruleFS1(c, "triple/...", "io") }, func(c *Ctx) { ruleS3c(c, "triple/...", "io") }, ruleT2b, ruleT1, ruleT2, ruleIO1},
 		Level:       "sibling table agreement between printers and parsers (T1), must-pass-through on the line reader (IO1)",
 		Trusted:     []string{"fmt verbs, strconv.Unquote, regexp and bufio.ScanLines behave as documented", trustedCore},
 		NotDecided:  []string{"round-trip equality for all values (ids containing delimiters, extreme numbers, zones, text containing the literal separator) — value-level", "the unescaped \"%v\" in Literal.String"},
@@ -97,7 +97,7 @@ func init() {
 	reg(&Property{
 		ID:          "C08",
 		Explanation: "Decides: X1/X1b every lexer loop and the state machine terminate; X2 exactly one terminal token then the channel is closed; X3 the cursor invariant; L7 evaluator recursion passes strictly shorter slices and the grammar consumes a token per recursion level; L1 every compiler-unproven index/slice on the statement path is discharged by a re-verified schema or reviewed entry; L2 no (nil, nil); L3 comma-ok values are not dereferenced when absent; L4 no process-killing call; P12 a negative LIMIT cannot reach make(); L6 every goroutine is joined or its producer drained; IO1 reader discipline. Also: X7 the scanner advances by the decoder's size; L2b, L3b, L6c, L6d (DESIGN §0.1). Not decided: absence of all panics, bounded running time. Round 3: D1 no defer in a loop.",
-		Rules: []func(*Ctx){func(c *Ctx) { ruleD1(c, "triple/...", "io", "bql/...", "storage/...") }, ruleX7, ruleX1, ruleX1b, ruleX2, ruleX3,
+		Rules: []func(*Ctx){func(c *Ctx) { ruleL3b(c, "bql/table") }, func(c *Ctx) { ruleD1(c, "triple/...", "io", "bql/...", "storage/...") }, ruleX7, ruleX1, ruleX1b, ruleX2, ruleX3,
 			func(c *Ctx) { ruleL1(c, 80, "./triple/...", "./io/...", "./bql/...", "./storage/...") },
 			func(c *Ctx) { ruleL2(c, 100, "triple/...", "io", "bql/...", "storage/...") },
 			func(c *Ctx) { ruleL2b(c, 40, "triple/...", "io", "bql/...", "storage/...") },
@@ -112,7 +112,7 @@ func init() {
 	reg(&Property{
 		ID:          "C09",
 		Explanation: "Decides: S8 the documented order bounds -> filter -> sort -> page, identical in all eleven lookups and with the page test guarding every send; S10 the window is closed on both sides by symmetry of the comparisons; S11 every filter operation has all its handlers (constants = SupportedOperations = String = executeFilter = planner table) and the two kind filters are twins; S12 no equality on zone-dependent renderings; S6 LatestAnchor is implemented without writing the caller's options. Also: S9z, S8x, S8y (checker keeps the caller's options), S12b no == between time.Time values. Not decided: paging arithmetic, ties in latest. Round 3: S6b aliasing through a returned parameter; D1.",
-		Rules: []func(*Ctx){ruleS6b, func(c *Ctx) { ruleD1(c, "triple/...", "io", "bql/...", "storage/...") }, ruleS9z, ruleS8, ruleS8x, ruleS8y, func(c *Ctx) { ruleS12b(c, "storage/...", "bql/...", "triple/...") }, func(c *Ctx) { ruleS10(c, 1, "storage/memory") }, ruleS11,
+		Rules: []func(*Ctx){ruleS6c, ruleS6b, func(c *Ctx) { ruleD1(c, "triple/...", "io", "bql/...", "storage/...") }, ruleS9z, ruleS8, ruleS8x, ruleS8y, func(c *Ctx) { ruleS12b(c, "storage/...", "bql/...", "triple/...") }, func(c *Ctx) { ruleS10(c, 1, "storage/memory") }, ruleS11,
 			func(c *Ctx) { ruleS12(c, "storage/memory", "storage/memoization") }, ruleS6},
 		Level:      "pipeline shape by def-use and dominance (S8), bound duality (S10), exhaustiveness tables and twin comparison (S11), direct rendering equality (S12)",
 		Trusted:    []string{"docs/support_new_filter_function.md as the oracle for the order and the recipe", trustedCore},
@@ -121,7 +121,7 @@ func init() {
 	reg(&Property{
 		ID:          "C10",
 		Explanation: "Decides (P4): (a) processClause reports 'unresolvable' (which truncates the table) only on the non-optional edge; (b) the plain cross product is only taken for non-optional clauses and LeftOptionalJoin takes it only with a non-empty right table; (c) when an optional clause matches nothing for a row the row is re-added with NULL cells; (d) every skippableError return in tripleToRow is on the non-optional edge. Also: P4e only reviewed row-preserving operations where the clause may be optional; P5c stage guards; PO1; TB1. Not decided: multiplicities of matches. Round 3: S6b; D1; P4c the unmatched row is merged with empty cells.",
-		Rules:       []func(*Ctx){ruleS6b, func(c *Ctx) { ruleD1(c, "triple/...", "io", "bql/...", "storage/...") }, ruleP4, ruleP4e, ruleP5c, rulePO1, ruleTB1},
+		Rules:       []func(*Ctx){ruleP2, ruleS6b, func(c *Ctx) { ruleD1(c, "triple/...", "io", "bql/...", "storage/...") }, ruleP4, ruleP4e, ruleP5c, rulePO1, ruleTB1},
 		Level:       "edge-fact dominance on the four places where an optional clause could drop rows (P4)",
 		Trusted:     []string{trustedCore},
 		NotDecided:  []string{"multiplicities of matches", "several optional clauses in sequence beyond each satisfying P4 individually", "joinWithRange's merge logic (value-level)"},
@@ -138,7 +138,7 @@ func init() {
 	reg(&Property{
 		ID:          "C12",
 		Explanation: "Decides: P5 stage order pattern -> project/group -> order -> having -> limit, each once and dominating the next; P6 the limit is pushed into the driver only under empty GROUP BY, ORDER BY, HAVING and a single clause; P10 numeric/chronological order is not decided on renderings in the sort comparator; P12 the limit literal is an int64 and non-negative before it is stored and Table.Limit only ever receives it; P13 the comparator reads both rows under the first key, passes its direction and recurses on the remaining keys exactly on equality. Also: P12b ORDER BY de-duplication keeps whole original entries in order; P5c each stage works iff its clause is present. Not decided: that the sort yields a sorted permutation, DESC and multi-key handling. Round 3: P12c IsLimitSet returns the flag the LIMIT hook sets; T1 time layout.",
-		Rules:       []func(*Ctx){ruleP12c, ruleT1, ruleP5, ruleP6, func(c *Ctx) { ruleP10(c, "bql/table") }, ruleP12, ruleP12b, ruleP13, ruleP5c},
+		Rules:       []func(*Ctx){ruleS6c, ruleP12c, ruleT1, ruleP5, ruleP6, func(c *Ctx) { ruleP10(c, "bql/table") }, ruleP12, ruleP12b, ruleP13, ruleP5c},
 		Level:       "dominance of stages (P5), guard facts at the push-down sites (P6), taint from non-order-preserving renderings to string orderings (P10), guard facts on the limit store (P12)",
 		Trusted:     []string{"sort.Sort sorts", trustedCore},
 		NotDecided:  []string{"that the result is a sorted permutation (library)", "DESC and multi-key handling", "first n rows (value-level)", "row dropping inside the clause when the limit is pushed down (PID/extraction filters)"},
@@ -146,7 +146,7 @@ func init() {
 	reg(&Property{
 		ID:          "C13",
 		Explanation: "Decides: P5 HAVING is applied after grouping and before limit; P10 the HAVING evaluators do not order numbers or times by their renderings; E1 each comparisonFor* evaluator tests the cell's kind-specific field before comparing; L7 the evaluator builder's recursion terminates; L2 evaluator constructors never return (nil, nil). Also: E2 NOT never returns its operand; P5c; P8/P8b evaluator errors propagate. Not decided: truth-functional correctness of the boolean evaluator and of the hand-written expression builder. Round 3: E3 evaluators are stateless; E4 formatCell compares the cell's own text; E1 the literal type test lies on every path.",
-		Rules:       []func(*Ctx){ruleE3, ruleE4, ruleE2, ruleP5, ruleP5c, func(c *Ctx) { ruleP8(c, "bql/semantic") }, func(c *Ctx) { ruleP8b(c, "bql/semantic") }, func(c *Ctx) { ruleP10(c, "bql/semantic") }, ruleE1, func(c *Ctx) { ruleL7(c, "bql/semantic") }, func(c *Ctx) { ruleL2(c, 40, "bql/semantic") }},
+		Rules:       []func(*Ctx){ruleT3, ruleE3, ruleE4, ruleE2, ruleP5, ruleP5c, func(c *Ctx) { ruleP8(c, "bql/semantic") }, func(c *Ctx) { ruleP8b(c, "bql/semantic") }, func(c *Ctx) { ruleP10(c, "bql/semantic") }, ruleE1, func(c *Ctx) { ruleL7(c, "bql/semantic") }, func(c *Ctx) { ruleL2(c, 40, "bql/semantic") }},
 		Level:       "stage dominance (P5), rendering taint (P10), structural recursion (L7)",
 		Trusted:     []string{trustedCore},
 		NotDecided:  []string{"truth-functional correctness of booleanNode and of the expression builder (evaluating them is symbolic execution, a different family)", "that comparisons with a constant of another kind never hold"},
@@ -154,7 +154,7 @@ func init() {
 	reg(&Property{
 		ID:          "C14",
 		Explanation: "Decides one clause only: P11 no map iteration order reaches an ordered output — every range over a map in bql/… and storage/… whose body appends, sends, writes or leaves with an element is followed by a sort of what it built or is in the reviewed table with its reason; in particular the ORDER BY key list is no longer rebuilt from a map. Also: HK1 hooks consume the modifier token they remember (no carry-over to the next clause); P3b the last FROM graph does not decide feasibility alone; S6b; P12b; S1/S1x index agreement (answers do not depend on which index a clause order selects); M4/M5. Not decided: invariance under renaming, clause permutation, partitioning, chanSize/bulkSize/GOMAXPROCS, monotonicity. Round 3: P3c; TB2; D1; S3c; H1x.",
-		Rules:       []func(*Ctx){ruleP3c, ruleTB2, ruleH1x, func(c *Ctx) { ruleD1(c, "triple/...", "io", "bql/...", "storage/...") }, func(c *Ctx) { ruleS3c(c, "triple/...", "io", "bql/...", "storage/...") }, ruleHK1, ruleS1, ruleS1x, ruleM4M5, func(c *Ctx) { ruleP11(c, "bql/...", "storage/...") }, ruleP3b, ruleS6b, ruleP12b},
+		Rules:       []func(*Ctx){func(c *Ctx) { ruleR1(c, "triple/...", "io", "bql/...", "storage/...") }, ruleP3c, ruleTB2, ruleH1x, func(c *Ctx) { ruleD1(c, "triple/...", "io", "bql/...", "storage/...") }, func(c *Ctx) { ruleS3c(c, "triple/...", "io", "bql/...", "storage/...") }, ruleHK1, ruleS1, ruleS1x, ruleM4M5, func(c *Ctx) { ruleP11(c, "bql/...", "storage/...") }, ruleP3b, ruleS6b, ruleP12b},
 		Level:       "enumeration of order-sensitive map ranges with a reviewed table (P11)",
 		Trusted:     []string{"p11Reviewed (8 sites, one reason each)", trustedCore},
 		NotDecided:  []string{"invariance under binding renaming, clause order, partitioning over graphs, channel/bulk sizes, GOMAXPROCS", "monotonicity under added triples — all relations between runs"},
@@ -162,7 +162,7 @@ func init() {
 	reg(&Property{
 		ID:          "C15",
 		Explanation: "Decides: L1 every compiler-unproven index/slice in node/predicate/literal/triple/io is discharged by a guard re-verified on the current code; L2 no parser or builder returns (nil, nil), ParseObject included; IO1 the reader adds only parsed triples, counts only added ones, returns errors with the count so far and reports success only after consulting the scanner's error; T1 printer/parser table agreement. Also: T2/T2b conversion table and unchanged value text; L2b nil results only with a known non-nil error. Not decided: accepted text re-parses to an equal value. Round 3: FS1; N1/N1b; T3.",
-		Rules: []func(*Ctx){ruleT4, ruleN1b, ruleT3, ruleN1, func(c *Ctx) { ruleFS1(c, "triple/...", "io") }, ruleT2b, func(c *Ctx) { ruleL1(c, 20, "./triple/...", "./io/...") },
+		Rules: []func(*Ctx){ruleN2, ruleT4, ruleN1b, ruleT3, ruleN1, func(c *Ctx) { ruleFS1(c, "triple/...", "io") }, ruleT2b, func(c *Ctx) { ruleL1(c, 20, "./triple/...", "./io/...") },
 			func(c *Ctx) { ruleL2(c, 20, "triple/...", "io") }, func(c *Ctx) { ruleL2b(c, 8, "triple/...", "io") }, ruleIO1, ruleT1, ruleT2},
 		Level:      "compiler prove pass + re-verified discharge table (L1), (nil,nil) contradiction rule (L2), must-pass-through on the reader (IO1)",
 		Trusted:    []string{"L1's reviewed entries for triple/…", "strings.Index / regexp.FindIndex contracts", trustedCore},
